@@ -73,4 +73,12 @@ def suite_ddd_widths(ctx):
     return s
 
 
-SUITES = [suite_enc, suite_types, suite_ddd_widths]
+def suite_codec_refusals(ctx):
+    """the library's own codecs refuse what they cannot transmit as it is (out-of-range integers, non-ASCII or wrong-length texts): the C12 codec suite, run here for its refusal half"""
+    from . import c12
+    s = c12.suite_codec(ctx)
+    s.name = 'codec_refusals'
+    return s
+
+
+SUITES = [suite_enc, suite_types, suite_ddd_widths, suite_codec_refusals]
